@@ -1,6 +1,7 @@
 import Sismic.Json
 import Sismic.Model.Clock
 import Sismic.Model.Bdd
+import Sismic.Model.Runner
 /-!
 # Sismic.Cases — interpretation of protocol cases by the model (dispatch on `kind`)
 -/
@@ -234,6 +235,42 @@ def runBdd (j : Json) : P Json := do
   let outs := scs.map (fun steps => Json.arr ((Bdd.runScenario (Bdd.initCtx c) steps).map ofStatus).toArray)
   return Json.mkObj [("scenarios", .arr outs.toArray)]
 
+/-! ## runner cases -/
+
+def cact (j : Json) : P (List (Runner.CAct String)) := do
+  match (← arr j) with
+  | [.str "start"] => return [.startIsSet, .startSetUnpaused, .startThread]
+  | [.str "queue", e] => return [.queue (← e.getStr?)]
+  | [.str "pause"] => return [.pause]
+  | [.str "unpause"] => return [.unpause]
+  | [.str "stop"] => return [.stopSetStop, .stopSetUnpaused, .join]
+  | [.str "wait"] => return [.join]
+  | _ => throw s!"bad client op {j.compress}"
+
+def ofPc : Runner.RPc → Json
+  | .notStarted => .str "notStarted" | .beforeRun => .str "beforeRun" | .waitA => .str "waitA"
+  | .readFinal => .str "readFinal" | .isSetStop => .str "isSetStop" | .beforeExecute => .str "beforeExecute"
+  | .execFirst => .str "execFirst" | .execMore => .str "execMore" | .afterExecute => .str "afterExecute"
+  | .sleep => .str "sleep" | .waitB => .str "waitB" | .setStop => .str "setStop" | .afterRun => .str "afterRun"
+  | .done => .str "done"
+
+def runRunner (j : Json) : P Json := do
+  let all ← (← fld j "execute_all").getBool?
+  let clients ← (← arr (← fld j "clients")).mapM (fun c => do
+    return ((← (← arr c).mapM cact).foldl (· ++ ·) []))
+  let sched ← (← arr (← fld j "sched")).mapM (·.getNat?)
+  let I := Runner.qInterp "stop"
+  let s0 : Runner.St Runner.QI String String := { it := {}, executeAll := all, clients := clients }
+  let s := Runner.run I s0 sched
+  return Json.mkObj [
+    ("executed", ofStrs s.executed),
+    ("reported", .arr (s.reported.map ofStrs).toArray),
+    ("before_run", ofInt s.beforeRun), ("after_run", ofInt s.afterRun), ("cycles", ofInt s.cycles),
+    ("pc", ofPc s.pc), ("unpaused", .bool s.unpaused), ("stop", .bool s.stop),
+    ("pending", ofStrs s.it.pending), ("final", .bool s.it.final),
+    ("clients_left", .arr (s.clients.map (fun c => ofInt c.length)).toArray),
+    ("enabled", .arr ((List.range (clients.length + 1)).map (fun t => Json.bool (Runner.enabled I s t))).toArray)]
+
 /-! ## clock cases (over `Rat`) -/
 
 def rat (j : Json) : P Rat :=
@@ -280,6 +317,7 @@ def run1 (j : Json) : P Json := do
   | "clock" => runClock j
   | "edit" => runEdit j
   | "bdd" => runBdd j
+  | "runner" => runRunner j
   | "io_import" => runIO "io_import" j
   | "io_export" => runIO "io_export" j
   | "io_roundtrip" => runIO "io_roundtrip" j
